@@ -317,7 +317,7 @@ async fn run_one(strategy: &'static str, two_proxies: bool, max_redir: usize, th
 }
 
 pub fn run(cli: &Cli) -> (Value, Vec<Violation>) {
-    let thorough = cli.thorough();
+    let thorough = cli.level() >= 1;
     let mut hs = vec![];
     let mut i = 0;
     for strategy in ["disabled", "set_get_only", "allow_all"] {
